@@ -26,7 +26,7 @@ from decimal import Decimal
 from harness.core import enc_cps, dec_cps
 from harness import reloadsim as R
 
-LEAN_PROPS = ["CircusProofs/Props/C12.lean"]
+LEAN_PROPS = ["CircusProofs/Props/C12.lean", "CircusProofs/Props/C12Arbiter.lean"]
 LEAN_LEMMAS = ["CircusProofs/Lemmas/Reload.lean"]
 RULE = ("case = controlled os.environ + 2-7 versions of one ini file: 2-6 watcher sections (names in mixed "
         "case, renamed by case between versions), numprocesses 0..4, cmd/args/working_dir, typed options that "
@@ -40,12 +40,14 @@ RULE = ("case = controlled os.environ + 2-7 versions of one ini file: 2-6 watche
         "with two names equal up to case; all choices from VERIF_SEED; non-trivial = a reload that keeps one "
         "watcher and changes another; distinct by content hash")
 ASSUMPTIONS = [
-    "the [circus] section and the sockets are held fixed (C12 says so); plugins are outside the modelled domain",
+    "the sockets are held fixed, and so is the [circus] section (C12 says so) except in the `circus` family (1 case in 20), where "
+    "check_delay is edited: there the model's arbiter branch (restart everything, apply nothing, baseline never updated) is compared "
+    "with the code and only the clauses that hold for every reload are judged; plugins are outside the modelled domain",
     "every worker obeys its stop signal at once and nothing dies by itself during a reload: a kill always ends "
     "with the death of the process, time is not modelled (the simulated kernel makes the clock tick 1 ms per "
     "spawn so that Process.started is strictly increasing in spawn order, as on a real machine)",
     "the comparable dicts are built by the Config model (C16 ties it to get_config); singleton, on_demand, "
-    "use_sockets, hooks and stream options are off (the driver answers out-of-domain otherwise), max_age is far "
+    "use_sockets and hooks are off (the driver answers out-of-domain otherwise; stream options are in: class / filename lines, each valid alone), max_age is far "
     "above the virtual duration of a reload",
     "files in which two watcher names are equal up to letter case are outside the model (Arbiter.get_watcher "
     "looks names up in lower case and the outcome depends on the hash seed); the oracle still judges them",
@@ -71,7 +73,7 @@ FIRST_PID = 100
 
 def render(version):
     """the ini text of a version"""
-    out = [R.HEAD]
+    out = [R.HEAD.replace("check_delay = 5\n", "check_delay = %s\n" % version.get("check_delay", "5"))]
     if version.get("env"):
         out.append("[env]\n" + "".join("%s = %s\n" % (k, v) for k, v in version["env"]) + "\n")
     for name, opts in version["watchers"]:
@@ -89,6 +91,14 @@ def texts_of(case):
 def has_clash(version):
     low = [n.lower() for n, _ in version["watchers"]]
     return len(set(low)) != len(low)
+
+
+def circus_changed_upto(case, i):
+    """some version up to i has a [circus] section that differs (as get_config reads it) from the one the daemon was started
+    with: from then on reloadconfig restarts everything and applies nothing (Arbiter._cfg is never brought up to date) —
+    C12 holds the [circus] section fixed, so its clauses are not judged there"""
+    base = float(case["versions"][0].get("check_delay", "5"))
+    return any(float(v.get("check_delay", "5")) != base for v in case["versions"][: i + 1])
 
 
 def clash_upto(case, i):
@@ -325,6 +335,15 @@ def oracle(case, obs):
         if o.get("reply") != "ok" or o.get("raised") or o.get("blocked"):
             fail(i, "c12:reload-failed", "reply %r raised %r log %r" % (o.get("reply"), o.get("raised"), o.get("errors")))
         on, fn, pn, fpn = _by_name(o), _by_name(f), _by_name(prev), _by_name(fprev)
+        if circus_changed_upto(case, i):
+            # outside C12's quantifier: only what holds for every reload is judged (answered ok, nobody left behind)
+            owned = set(p for w in o["watchers"] for p in w["pids"])
+            if set(o["live"]) - owned:
+                fail(i, "c12:orphan-worker", "alive but in no watcher: %r" % sorted(set(o["live"]) - owned))
+            for w in o["watchers"]:
+                if not set(w["pids"]) <= set(o["live"]):
+                    fail(i, "c12:dead-worker-listed", "%s lists %r, alive are %r" % (w["name"], w["pids"], o["live"]))
+            continue
         # -- the daemon runs exactly the watchers the file defines …
         want = sorted(n for n, _ in ver["watchers"])
         if sorted(w["name"] for w in f["watchers"]) != want:
@@ -515,6 +534,12 @@ EXTRA_KEYS = {
     "color": ["red", "blue"],
     "rlimit_nofile": ["100", "200"],
     "rlimit_core": ["0", "10"],
+    # stream options: `stdout_stream.k = v` lines land in the nested dict cfg['stdout_stream'] that DictDiffer compares as a
+    # whole; the Watcher must keep its own copy (get_stream pops `class` from the dict it is given)
+    "stdout_stream.class": ["StdoutStream", "FancyStdoutStream"],
+    "stdout_stream.filename": ["/dev/null", "/dev/full"],
+    "stderr_stream.class": ["StdoutStream", "FancyStdoutStream"],
+    "stderr_stream.filename": ["/dev/null", "/dev/full"],
 }
 ENV_KEYS = ["A", "B", "PS1", "PROMPT_COMMAND", "Mode", "PATH2"]
 ENV_VALS = ["1", "2", "x y", "$HOME/bin", "pre-$USERX-post", " padded ", "/opt"]
@@ -569,13 +594,15 @@ def _copy(v):
     return json.loads(json.dumps(v))
 
 
-def _edit(rng, versions, wild):
+def _edit(rng, versions, wild, circus=False):
     """the next version: 1-3 edits of the last one"""
     v = _copy(versions[-1])
     kinds = ["noop", "np", "np", "np", "cmd", "opt", "opt", "env", "add", "remove", "respell", "reorder", "revert",
              "casename", "envsec"]
     if wild:
         kinds += ["extra", "extra", "zero", "respawn"]
+    if circus:
+        kinds += ["circus"] * 4
     done = []
     for _ in range(rng.choice([1, 1, 1, 2, 2, 3])):
         kind = rng.choice(kinds)
@@ -584,6 +611,9 @@ def _edit(rng, versions, wild):
         od = dict((k, i) for i, (k, _) in enumerate(w[1])) if w else {}
         if kind == "noop":
             pass
+        elif kind == "circus":
+            # the arbiter part of reload_from_config: another text for check_delay (same number or another one)
+            v["check_delay"] = rng.choice(["5", "5.0", "05", "6", "6.0", "7", "2.5"])
         elif kind == "revert" and len(versions) >= 2:
             v = _copy(rng.choice(versions[:-1]))
         elif kind in ("np", "zero") and w:
@@ -657,7 +687,7 @@ def _edit(rng, versions, wild):
     return v, done
 
 
-def gen_case(rng, wild):
+def gen_case(rng, wild, circus=False):
     environ = [["PATH", "/usr/bin:/bin"], ["HOME", "/home/u"], ["LANG", "C"]]
     if rng.random() < 0.5:
         environ.append(["PS1", "$ "])
@@ -671,10 +701,15 @@ def gen_case(rng, wild):
     versions = [v0]
     edits = []
     for _ in range(rng.randint(1, 6)):
-        v, done = _edit(rng, versions, wild)
+        v, done = _edit(rng, versions, wild, circus)
         versions.append(v)
         edits.append(done)
-    return {"environ": environ, "versions": versions, "edits": edits, "family": "wild" if wild else "tame"}
+    if circus:
+        # one more reload of the last file: a daemon that a restart-everything left wedged refuses it
+        versions.append(_copy(versions[-1]))
+        edits.append(["noop"])
+    return {"environ": environ, "versions": versions, "edits": edits,
+            "family": "circus" if circus else "wild" if wild else "tame"}
 
 
 def gen_clash(rng):
@@ -696,6 +731,8 @@ def generate(rng, tier):
         r = i % 20
         if r == 19:
             out.append(gen_clash(rng))
+        elif r == 18:
+            out.append(gen_case(rng, wild=False, circus=True))
         else:
             out.append(gen_case(rng, wild=(r % 2 == 1)))
     return out
